@@ -88,6 +88,8 @@ Definition predict_v (len : bool) (v : nsview) (c : ccase) (cid : nat) : obs :=
   | 22 | 23 => of_mat (bind X (fun x => lp_to_array x (c_qnames c)))
   | 24 => of_dict (bind X (fun x => lp_to_dict x (c_dnames c)))
   | 25 => of_sarr (empty_sa_dtype n (c_fields c) v)
+  | 26 => of_mat (bind X lp_to_array_all)
+  | 27 => of_mat (bind X (fun x => unstructured_view x names))
   | _ => OErr
   end.
 
